@@ -1,6 +1,7 @@
 package harness
 
 import (
+	"go.uber.org/zap"
 	"context"
 	"encoding/json"
 	"fmt"
@@ -89,6 +90,7 @@ type Scenario struct {
 	FaultFree  bool `json:"faultfree"`  // all of the above + healthy + no connection events + no watch failures
 	MockErrs   bool          `json:"mockerrs,omitempty"` // the store words its refusals like the package's mock
 	BareSeq    bool          `json:"bareseq,omitempty"`  // a refused Create is the server's bare "wrong last sequence" error
+	YieldLog   int           `json:"yieldlog,omitempty"` // k > 0: the configured Logger yields the processor on every k-th record (a log sink that takes a moment)
 	MaxLat     time.Duration `json:"maxlat"`    // promised bound on the latency of every answered operation (0 = no promise)
 	FaultsEnd  time.Duration `json:"faultsend"` // no injected fault, partition or lost watch event after this instant (0 = there are none at all)
 	ConnOnly   bool `json:"connonly"`   // the only disturbances are connection notifications (store responsive, no outside writer, healthy)
@@ -154,6 +156,24 @@ func (c *appCtx) end(err error) {
 	}
 	c.mu.Unlock()
 }
+
+// yieldLogger is a log sink that takes a moment: on every k-th record it yields the processor, which lets whatever else
+// is runnable go first - a goroutine switch at a place where the library's code has none of its own.
+type yieldLogger struct {
+	every int64
+	n     atomic.Int64
+}
+
+func (l *yieldLogger) rec() {
+	if l.n.Add(1)%l.every == 0 {
+		runtime.Gosched()
+	}
+}
+func (l *yieldLogger) Debug(string, ...zap.Field) { l.rec() }
+func (l *yieldLogger) Info(string, ...zap.Field)  { l.rec() }
+func (l *yieldLogger) Warn(string, ...zap.Field)  { l.rec() }
+func (l *yieldLogger) Error(string, ...zap.Field) { l.rec() }
+func (l *yieldLogger) Fatal(string, ...zap.Field) { l.rec() }
 
 type recMetrics struct{ rt *instRT }
 
@@ -359,6 +379,9 @@ func runScenario(t *testing.T, sc *Scenario) (res *ScenarioResult) {
 				AllowPriorityTakeover: is.Takeover, Metrics: recMetrics{rt}}
 			if is.HasHealth {
 				cfg.HealthChecker = scriptedHealth{rt}
+			}
+			if sc.YieldLog > 0 {
+				cfg.Logger = &yieldLogger{every: int64(sc.YieldLog)}
 			}
 			var prov leader.JetStreamProvider
 			cl := store.client(is.ID)
@@ -618,12 +641,16 @@ func execStep(tr *Trace, store *RefStore, rts map[int]*instRT, st Step, apiSeq *
 		}
 		api("start", func() string {
 			// (how this run's context will end, if the scenario ends it: every third start gets a deadline flavour)
-			ac := newAppCtx()
-			how := error(context.Canceled)
+			// (a context of the standard library's own kind passes its cancellation on to the contexts derived from it before
+			// cancel returns; a foreign implementation does so through a goroutine, a moment later)
+			var ac context.Context
+			var cancel func()
 			if (int(st.At/time.Millisecond)+st.Inst)%3 == 0 {
-				how = context.DeadlineExceeded
+				c := newAppCtx()
+				ac, cancel = c, func() { c.end(context.DeadlineExceeded) }
+			} else {
+				ac, cancel = context.WithCancel(context.Background())
 			}
-			cancel := func() { ac.end(how) }
 			err := rt.el.Start(ac)
 			if err == nil {
 				rt.mu.Lock()
